@@ -167,6 +167,7 @@ type reloadWorld struct {
 	nowMs   int64
 	dues    []int64 // due time of every registered job
 	seen    int64   // registrations accounted for in dues
+	sync    int64   // "finished" log lines written synchronously by immediate un-manages (not jobs)
 	reloads int
 }
 
@@ -273,7 +274,11 @@ func (w *reloadWorld) reload(glob bool, eps []polDecl, immediately bool, o *prot
 		o.Count("L4-reload-rejected")
 		return "err"
 	}
-	if err := w.acc.UpdatePoliciesData(pd, immediately); err != nil {
+	before := w.jl.finished.Load()
+	err = w.acc.UpdatePoliciesData(pd, immediately)
+	// no sleeping job can finish while the clock stands still: what was logged now is the immediate un-manage
+	w.sync += w.jl.finished.Load() - before
+	if err != nil {
 		w.reloads++
 		w.settleRegistrations()
 		if strings.Contains(err.Error(), "failed to initialize HAProxy endpoints") {
@@ -297,10 +302,10 @@ func (w *reloadWorld) advance(ms int64) string {
 			due++
 		}
 	}
-	for k := 0; k < 4000 && w.jl.finished.Load() < due; k++ {
+	for k := 0; k < 4000 && w.jl.finished.Load()-w.sync < due; k++ {
 		time.Sleep(500 * time.Microsecond)
 	}
-	if w.jl.finished.Load() < due {
+	if w.jl.finished.Load()-w.sync < due {
 		return "err:jobs-not-finished"
 	}
 	return "ok"
